@@ -183,6 +183,21 @@ class Interp:
     def exec_op(self, op):
         self.stats['ops'] += 1
         self.trace.add('op', op[0], json.dumps(op[1], sort_keys=True))
+        if op[0] == 'retree':
+            # the tree changes between two populations: a file is replaced
+            # by a directory (of the same name, or of its trimmed name) that
+            # contains a file
+            gone, newdir, child = op[1]
+            pg = os.path.join(self.root_dir, gone)
+            pd = os.path.join(self.root_dir, newdir)
+            if not os.path.isfile(pg) or (os.path.exists(pd) and pd != pg):
+                self.stats['skipped'] += 1
+                return
+            os.remove(pg)
+            os.makedirs(pd)
+            open(os.path.join(pd, child), 'w').close()
+            self.probes['file_became_directory'] += 1
+            return
         opts = op[1]
         nest = opts.get('nest')
         trim = opts.get('trim')
@@ -343,6 +358,9 @@ class Interp:
                 continue
             if key in required_files:
                 continue            # stated replacement
+            if (key in required_dirs or key in allowed_dirs) and isinstance(
+                    after.get(key), RM):
+                continue            # the name denotes a directory now
             parts = key.split('/')
             if any('/'.join(parts[:k]) in required_files
                    for k in range(1, len(parts))):
@@ -510,6 +528,28 @@ def generate(prop, run_seed, tier='quick', tolerate=frozenset()):
         if crng.random() < .3:
             opts['root'] = True
         ops.append(['populate', opts])
+    if files and crng.random() < .15:
+        # a file turns into a directory between two populations; its key
+        # preferably carries handles already (pre-existing and/or nested)
+        gone = crng.choice(files)
+        stem = os.path.splitext(gone)[0]
+
+        def free(name):     # no other entry has this name or trimmed name
+            return not any(rel == name or os.path.splitext(rel)[0] == name
+                           for rel, k in tree if rel != gone)
+        cands = [n for n in {gone, stem} if free(n)]
+        if not cands:
+            return {'format': 1, 'engine': 'popul', 'config': cfg,
+                    'ops': ops, 'scripts': {}}
+        newdir = crng.choice(sorted(cands))
+        child = crng.choice(['x.txt', 'a.png', 'b', 'y.txt'])
+        if crng.random() < .6:
+            cfg['pre'] = [e for e in cfg['pre'] if e[0] not in (gone, stem)]
+            cfg['pre'].append([crng.choice([gone, stem]), 'h'])
+        if len(ops) < 2:
+            ops.append(['populate', dict(ops[0][1])])
+        k = crng.randint(1, len(ops) - 1)
+        ops.insert(k, ['retree', [gone, newdir, child]])
     return {'format': 1, 'engine': 'popul', 'config': cfg, 'ops': ops,
             'scripts': {}}
 
@@ -558,7 +598,7 @@ INFO = {'C16': {
         'no I/O errors are injected: no property speaks about them',
         'the conflict clauses are judged on what the recording factory saw '
         'in the map at the instant each handle was built']}}
-PROBES = {'C16': ['conflict.trim', 'conflict.preexisting', 'conflict.repeat',
+PROBES = {'C16': ['file_became_directory', 'conflict.trim', 'conflict.preexisting', 'conflict.repeat',
                   'conflict.repeat_rule', 'three_way_conflict',
                   'ext_filter_with_nested_dir', 'empty_dir', 'rule_is_file',
                   'rule_missing', 'per_call_override',
